@@ -68,6 +68,8 @@ type render struct {
 	srvOff  int
 	ctype   bool
 	twoName bool
+	srcErr  string // the error value of a failing source: plain | wrap_eof | wrap_ueof
+	nonStk  bool   // the failing source reports plain io.EOF after its failure
 }
 
 // srcOffBytes renders the abstract source-fault offset (units) to a byte offset of a file of n bytes.
@@ -109,8 +111,17 @@ func descriptor(scr M, r render) M {
 		"timeout_ms": r.tm.timeoutMs, "ctx_ms": r.tm.ctxMs,
 		"file_len": r.fileLen, "src_off": r.srcOff, "src_chunk": r.chunk, "resp_unit": r.unit,
 		"resp_chunk": r.rchunk, "settle_ms": 3000,
-		"srv_off": r.srvOff, "ctype": r.ctype, "two_names": r.twoName}
+		"srv_off": r.srvOff, "ctype": r.ctype, "two_names": r.twoName, "src_err": srcErrOr(r.srcErr), "src_nonsticky": r.nonStk}
 }
+
+func srcErrOr(v string) string {
+	if v == "" {
+		return "plain"
+	}
+	return v
+}
+
+var srcErrVals = []string{"plain", "wrap_eof", "wrap_ueof"}
 
 // timing is one point of the deadline-selection lattice: where the request timeout comes from, where the caller's
 // context is supplied, and how its deadline relates to the request timeout.
@@ -239,6 +250,7 @@ func renderScript(scr M, idx int, thorough bool) []M {
 				r := render{mode: mode, tm: tm, fileLen: []int{700, 700},
 					chunk: []int{4096, 64}[(idx/2)%2], unit: 8, rchunk: 4096}
 				r.srcOff = []int{srcOffBytes(s.Src[0].Off, 700, v), srcOffBytes(s.Src[1].Off, 700, v+1)}
+				r.srcErr, r.nonStk = srcErrVals[(idx+v)%3], ((idx+v)/3)%2 == 1
 				r.srvOff = srvOffBytes(s.SrvAt, s.SrvK, r.unit, idx, fileData(9, respUnits*r.unit))
 				out = append(out, descriptor(scr, r))
 			}
@@ -267,7 +279,7 @@ func randomScript(rng *rand.Rand) M {
 	if cancel == "auth" && auth == "none" {
 		cancel = "none"
 	}
-	scr := baseScript(p.p, p.f, p.n, rng.Intn(2) == 0, auth, []string{"all", "p0", "p1"}[rng.Intn(3)], cancel)
+	scr := baseScript(p.p, p.f, p.n, rng.Intn(2) == 0, auth, []string{"all", "p0", "p1", "w1"}[rng.Intn(4)], cancel)
 	nsrc := 0
 	if p.p == "mp" {
 		nsrc = p.n
@@ -343,6 +355,7 @@ func randomRender(scr M, rng *rand.Rand) M {
 			r.srcOff = append(r.srcOff, 1+rng.Intn(n-1))
 		}
 	}
+	r.srcErr, r.nonStk = srcErrVals[rng.Intn(3)], rng.Intn(2) == 0
 	r.unit = []int{1, 8, 5000, 40000}[rng.Intn(4)]
 	r.rchunk = []int{1, 3, 4096, 1 << 20}[rng.Intn(4)]
 	if r.rchunk < 512 && r.unit > 8 {
@@ -455,6 +468,56 @@ func generate(c *drv.Ctx) {
 			}
 		}
 		c.Extra["deadline_lattice"] = n
+	}
+
+	// (2c) failing upload sources: every error value (plain, wrapping io.EOF, wrapping io.ErrUnexpectedEOF) x sticky / non-sticky
+	//      x offsets inside and beyond the 512-byte sniffing window x with / without a declared content type
+	{
+		n := 0
+		for _, off := range []struct{ unitOff, bytes int }{{0, 0}, {1, 100}, {1, 511}, {1, 512}, {1, 650}, {2, 700}} {
+			for _, ev := range srcErrVals {
+				for _, ns := range []bool{false, true} {
+					for _, ct := range []bool{false, true} {
+						for fi, pay := range []struct{ f, n int }{{0, 1}, {1, 2}} {
+							scr := baseScript("mp", pay.f, pay.n, n%2 == 0, []string{"none", "read"}[n%2], "all", "none")
+							scr["src"].([]M)[fi] = M{"kind": "err", "off": off.unitOff}
+							s := scriptOf(drv.Norm(scr))
+							lat := timingLattice(s)
+							so := []int{0, 0}
+							so[fi] = off.bytes
+							r := render{mode: []string{"rt", "wire"}[(n/2)%2], tm: renderTiming(s, lat[n%len(lat)], 250), fileLen: []int{700, 700},
+								srcOff: so, chunk: []int{4096, 100}[n%2], unit: 8, rchunk: 4096, ctype: ct, srcErr: ev, nonStk: ns}
+							descs = append(descs, descriptor(scr, r))
+							n++
+						}
+					}
+				}
+			}
+		}
+		c.Extra["source_error_values"] = n
+	}
+
+	// (2d) the reader copies the body into a destination that fails after one unit (io.Copy / WriterTo)
+	{
+		n := 0
+		for _, srv := range []M{{"kind": "none", "at": "none", "k": 0}, {"kind": "close", "at": "body", "k": 0}, {"kind": "trunc", "at": "body", "k": 1}, {"kind": "stall", "at": "body", "k": 1}} {
+			for _, reuse := range []bool{true, false} {
+				for _, mode := range []string{"rt", "wire"} {
+					for _, unit := range []int{8, 5000} {
+						scr := baseScript("buffer", 0, 0, reuse, "none", "w1", "none")
+						scr["srv"] = srv
+						s := scriptOf(drv.Norm(scr))
+						lat := timingLattice(s)
+						body := fileData(9, respUnits*unit)
+						r := render{mode: mode, tm: renderTiming(s, lat[n%len(lat)], 300), fileLen: []int{700, 700}, srcOff: []int{0, 0},
+							chunk: 4096, unit: unit, rchunk: []int{4096, 3}[n%2], srvOff: srvOffBytes(drv.Str(srv["at"]), drv.Int(srv["k"]), unit, 0, body)}
+						descs = append(descs, descriptor(scr, r))
+						n++
+					}
+				}
+			}
+		}
+		c.Extra["failing_destination"] = n
 	}
 
 	// (3) seeded random scripts (up to two faults) with random concrete renderings
